@@ -18,6 +18,7 @@ import (
 	"fmt"
 	"go/token"
 	"go/types"
+	"sort"
 	"strings"
 
 	"golang.org/x/tools/go/ssa"
@@ -30,6 +31,7 @@ func checkC13(c *Ctx) {
 	ruleOpenAtMarker(c)
 	ruleSetextChar(c)
 	ruleEmphShrink(c)
+	ruleHardBreakSet(c)
 	ruleSpecBoundsFor(c, "C13")
 }
 
@@ -695,5 +697,178 @@ func init() {
 			Old: "\t\tp.ConsumeIndent(indent)\n\t\tp.OpenBlock(BlockQuoteKind)\n", New: "\t\tif indent > 0 {\n\t\t\tp.ConsumeIndent(indent)\n\t\t}\n\t\tp.OpenBlock(BlockQuoteKind)\n"},
 		Control{Name: "neg-fence-result-in-locals", Props: []string{"C13"}, File: "blocks.go", Negative: true,
 			Old: "\t\tp.OpenFencedCodeBlock(f.char, f.n)\n", New: "\t\tfenceChar, fenceLen := f.char, f.n\n\t\tp.OpenFencedCodeBlock(fenceChar, fenceLen)\n"},
+	)
+}
+
+// ---------------------------------------------------------------------------------------------
+// START-NONBLANK (C15, C09, C06): no block start opens a block on a rest of line that is blank.
+
+func ruleStartNonBlank(c *Ctx) {
+	c.Rule("START-NONBLANK", "Every call that opens a block in a block-start rule (entry of blockStarts) is dominated by a decision about the content of the rest of the line: the failing edge of a p.IsRestBlank() test, or a branch on a value computed from p.BytesAfterIndent() (a recogniser's result, a prefix test, a comparison of its first byte). CommonMark starts no block on a blank line; a rule that looks only at the indentation and at the kind of the open blocks (the indented-code rule without its blank test) opens an empty code block on a line of four spaces — which never happens at top level, where blank lines do not reach the block starts, but does inside a block quote, where the line is '>' followed by spaces.")
+	p := c.P
+	starts := blockStartFuncs(p)
+	n := 0
+	for idx, fn := range starts {
+		if fn == nil || fn.Blocks == nil {
+			continue
+		}
+		// does v depend on the line's content?
+		var dep func(v ssa.Value, d int, seen map[ssa.Value]bool) bool
+		dep = func(v ssa.Value, d int, seen map[ssa.Value]bool) bool {
+			if v == nil || d > 10 || seen[v] {
+				return false
+			}
+			seen[v] = true
+			if call, ok := v.(*ssa.Call); ok {
+				if _, nm := lpCall(call); nm == "BytesAfterIndent" {
+					return true
+				}
+				if _, nm := lpCall(call); nm != "" {
+					return false
+				}
+			}
+			if in, ok := v.(ssa.Instruction); ok {
+				for _, op := range in.Operands(nil) {
+					if op != nil && *op != nil && dep(*op, d+1, seen) {
+						return true
+					}
+				}
+			}
+			// loads of locals: what was stored
+			if u, ok := v.(*ssa.UnOp); ok && u.Op == token.MUL {
+				if _, root, ok := localFieldPath(u.X); ok {
+					for _, r := range refsOf(root) {
+						if st, ok := r.(*ssa.Store); ok && dep(st.Val, d+1, seen) {
+							return true
+						}
+					}
+				} else if al, ok := u.X.(*ssa.Alloc); ok {
+					for _, r := range refsOf(al) {
+						if st, ok := r.(*ssa.Store); ok && st.Addr == ssa.Value(al) && dep(st.Val, d+1, seen) {
+							return true
+						}
+					}
+				}
+			}
+			return false
+		}
+		eachInstr(fn, func(in ssa.Instruction) {
+			call, name := lpCall(in)
+			if call == nil || !isOpenLP(name) {
+				return
+			}
+			n++
+			k, _ := openedKind(p, call, name)
+			key := fmt.Sprintf("blockStarts[%d]:%s[%s]", idx, name, blockKindName(p, k))
+			good := false
+			for _, b := range fn.Blocks {
+				iff := blockIf(b)
+				if iff == nil {
+					continue
+				}
+				cond := iff.Cond
+				neg := false
+				if u, ok := cond.(*ssa.UnOp); ok && u.Op == token.NOT {
+					cond, neg = u.X, true
+				}
+				if cc, ok := cond.(*ssa.Call); ok {
+					if _, nm := lpCall(cc); nm == "IsRestBlank" {
+						edge := 1
+						if neg {
+							edge = 0
+						}
+						if edgeDominates(b, edge, call.Block()) {
+							good = true
+						}
+						continue
+					}
+				}
+				if dep(iff.Cond, 0, map[ssa.Value]bool{}) && (edgeDominates(b, 0, call.Block()) || edgeDominates(b, 1, call.Block())) {
+					good = true
+				}
+			}
+			c.Check(good, "START-NONBLANK", key, call.Pos(), "the block is opened without any dominating decision about the content of the rest of the line (neither a blank test nor a test of p.BytesAfterIndent())")
+		})
+	}
+	if n < 9 {
+		c.Undecided("START-NONBLANK", "instance-count", token.NoPos, fmt.Sprintf("%d block-opening calls found in the block-start rules; 9 confirmed by hand", n))
+	}
+}
+
+func init() {
+	addControls(
+		Control{Name: "indented-code-start-without-blank-test", Props: []string{"C15", "C09"}, File: "blocks.go",
+			Old: "if p.Indent() < codeBlockIndentLimit || p.IsRestBlank() || p.TipKind() == ParagraphKind {", New: "if p.Indent() < codeBlockIndentLimit || p.TipKind() == ParagraphKind {", Expect: "START-NONBLANK/blockStarts[7]",
+			Why: "'>     ' (a quoted line of spaces) after a heading opens an empty indented code block inside the quote"},
+		Control{Name: "neg-indented-code-start-blank-test-first", Props: []string{"C15", "C09"}, File: "blocks.go", Negative: true,
+			Old: "if p.Indent() < codeBlockIndentLimit || p.IsRestBlank() || p.TipKind() == ParagraphKind {\n\t\t\treturn\n\t\t}", New: "if p.IsRestBlank() {\n\t\t\treturn\n\t\t}\n\t\tif p.TipKind() == ParagraphKind || p.Indent() < codeBlockIndentLimit {\n\t\t\treturn\n\t\t}"},
+	)
+}
+
+// ---------------------------------------------------------------------------------------------
+// HARDBREAK-SET
+
+func ruleHardBreakSet(c *Ctx) {
+	c.Rule("HARDBREAK-SET", "The scanner for a hard line break written with spaces passes over spaces and the bytes of the line ending only: for every loop of parseHardLineBreakSpace, the set of values of the byte it reads for which the loop goes round again (branches that depend on that byte alone decided for each of the 256 values, all others both ways) is a subset of {space, LF, CR}. A scanner that also passes over tabs makes 'foo␠␠⇥⏎' a hard break whose span is not '2+ spaces with the line ending'.")
+	p := c.P
+	fn := p.Func("parseHardLineBreakSpace")
+	if !c.NeedFunc("HARDBREAK-SET", fn, "parseHardLineBreakSpace") {
+		return
+	}
+	e := newBSET(p)
+	loops := naturalLoops(fn)
+	n := 0
+	for li, l := range loops {
+		inLoop := func(v ssa.Value) bool {
+			u, ok := v.(*ssa.UnOp)
+			if !ok || u.Op != token.MUL || !l.body[u.Block()] {
+				return false
+			}
+			ia, ok := u.X.(*ssa.IndexAddr)
+			if !ok {
+				return false
+			}
+			_, isParam := ia.X.(*ssa.Parameter)
+			return isParam
+		}
+		has := false
+		eachInstr(fn, func(in ssa.Instruction) {
+			if v, ok := in.(ssa.Value); ok && inLoop(v) {
+				has = true
+			}
+		})
+		if !has {
+			continue
+		}
+		n++
+		_, edges := e.reachEdgesUnderSym(fn, inLoop, byteDomain())
+		cont := map[int64]bool{}
+		for _, lt := range l.latches {
+			for v := range edges[[2]int{lt.Index, l.header.Index}] {
+				cont[v] = true
+			}
+		}
+		var extra, all []int64
+		for v := range cont {
+			all = append(all, v)
+			if v != ' ' && v != '\n' && v != '\r' {
+				extra = append(extra, v)
+			}
+		}
+		sort.Slice(all, func(i, j int) bool { return all[i] < all[j] })
+		sort.Slice(extra, func(i, j int) bool { return extra[i] < extra[j] })
+		c.Check(len(extra) == 0, "HARDBREAK-SET", fmt.Sprintf("parseHardLineBreakSpace:loop#%d", li+1), l.header.Instrs[0].Pos(), fmt.Sprintf("the loop continues for %s; bytes other than space, LF, CR: %s", describeSet(all, true), describeSet(extra, true)))
+	}
+	if n < 1 {
+		c.Undecided("HARDBREAK-SET", "instance-count", fn.Pos(), "no loop of parseHardLineBreakSpace reads the text byte by byte any more; the scanner's byte set is not visible")
+	}
+}
+
+func init() {
+	addControls(
+		Control{Name: "hard-break-scan-passes-tabs", Props: []string{"C13"}, File: "inlines.go",
+			Old: "\t\tif c := remaining[end]; c != ' ' && c != '\\n' && c != '\\r' {", New: "\t\tif !isSpaceTabOrLineEnding(remaining[end]) {", Expect: "HARDBREAK-SET/parseHardLineBreakSpace:loop"},
+		Control{Name: "neg-hard-break-scan-as-switch", Props: []string{"C13", "C14"}, File: "inlines.go", Negative: true,
+			Old: "\t\tif c := remaining[end]; c != ' ' && c != '\\n' && c != '\\r' {\n\t\t\treturn end, false\n\t\t}", New: "\t\tswitch remaining[end] {\n\t\tcase ' ', '\\n', '\\r':\n\t\tdefault:\n\t\t\treturn end, false\n\t\t}"},
 	)
 }
